@@ -331,6 +331,16 @@ def s_text(lang, tier, seed, out, prefix="", phrases=None, kinds=("text", "occ")
         for kind in kinds:
             out.write("%s\t%s\t%s\t%s\n" % (kind, code, thr_bits(th), esc(t)))
             n += 1
+    # texts whose word count / number count is a size mined from the source (srcmine.py): z numbers in a row, z words of
+    # dictation, z ordinary words before and after a number
+    nums = [w for w in b["num"] if w.isalpha()][:12] or b["num"][:3]
+    for z in _srcmine.sizes(41, 3000):
+        w1, w2 = rng.choice(nums), rng.choice(nums)
+        for t in ((w1 + ", ") * z + w2, " ".join(rng.choice(nums) for _ in range(z)), ("x " * z) + w1 + (" y" * z), (w1 + " " + w2 + ". ") * (z // 2)):
+            for th in (0.0, 10.0):
+                for kind in kinds:
+                    out.write("%s\t%s\t%s\t%s\n" % (kind, code, thr_bits(th), esc(t)))
+                    n += 1
     return n
 
 
